@@ -170,10 +170,30 @@ Definition defaults_in_range (m : job) : bool :=
   forallb (fun t => (0 <=? task_min t) && (task_min t <=? t_replicas t)) (j_tasks m) &&
   (sumZ (map t_replicas (j_tasks m)) <=? max32).
 
-(* law 103: v0 = real verdict on the request with only names and queue filled
-   in, m1 = the real defaulted object, v1 = real verdict on m1 *)
-Definition law_default_valid (m1 : job) (v0 v1 : bool) : bool :=
-  implb (v0 && defaults_in_range m1) v1.
+(* the same side conditions stated on the REQUEST (before defaulting), without the
+   "minAvailable <= replicas" clause for explicit values (validation of the
+   prefilled request already gives it): replicas >= 0 and an explicit
+   minAvailable >= 0 (both CRD minimums), a minAvailable that will be derived from
+   a partition policy fits: 0 <= minPartitions*partitionSize <= replicas, and the
+   total of replicas is an int32 *)
+Definition task_in_range (t : task) : bool :=
+  (0 <=? t_replicas t) &&
+  match t_minavail t with
+  | Some m => 0 <=? m
+  | None => match t_part t with
+            | Some p => if 0 <? pp_min p
+                        then (0 <=? pp_min p * pp_size p) && (pp_min p * pp_size p <=? t_replicas t)
+                        else true
+            | None => true
+            end
+  end.
+Definition request_in_range (j : job) : bool :=
+  forallb task_in_range (j_tasks j) && (sumZ (map t_replicas (j_tasks j)) <=? max32).
+
+(* law 103: j = the request, v0 = real verdict on the request with only names and
+   queue filled in, v1 = real verdict on the real defaulted object *)
+Definition law_default_valid (j : job) (v0 v1 : bool) : bool :=
+  implb (v0 && request_in_range j) v1.
 
 (* ---- updates ---- *)
 Definition task_update_ok (o n : task) : bool :=
